@@ -45,6 +45,17 @@ func checkC13(c *Ctx) {
 	c.freshPerIter("FRESH-PER-ITER", c.Func("io/phyloxml", "PhyloXML", "IterateTrees"), "Every tree of a multi-tree file is delivered in file order")
 	c.freshPerIter("FRESH-PER-ITER", c.Func("io/nextstrain", "Nextstrain", "IterateTrees"), "Every tree of a multi-tree file is delivered in file order")
 	c.Floor("FRESH-PER-ITER", 1)
+	c.Decides("NO-READ-AFTER-EOT: the Newick Parse function reads no token after the test of the token against EOT (it stops at the end of the first tree whatever follows)")
+	c.noReadAfterEOT("NO-READ-AFTER-EOT", c.Func("io/newick", "Parser", "Parse"), "reading 'the first tree' of a file gives the same tree as the first one delivered by the multi-tree reader")
+	c.Floor("NO-READ-AFTER-EOT", 1)
+	c.Decides("RUNE-NARROW: the Nexus lexer and parser never narrow a rune to a byte; ALL-MEMBERS: no gzip reader of the repository has Multistream switched off (every member of a compressed input is read)")
+	c.runeNarrow("RUNE-NARROW", c.AllFuncs("io/nexus", "io/newick"), "names are carried over unchanged between the formats")
+	c.Trivial("RUNE-NARROW", "scan", 0, "io/nexus and io/newick scanned")
+	if sites, _ := c.gzipAllMembers("ALL-MEMBERS", "Every tree of a multi-tree file is delivered in file order ... none is silently skipped"); sites == 0 {
+		c.Undecided("ALL-MEMBERS", "scan", 0, "no gzip.NewReader call found (GetReader opened .gz inputs through one)")
+	} else {
+		c.Trivial("ALL-MEMBERS", "scan", 0, fmt.Sprintf("%d gzip readers, none with Multistream switched off", sites))
+	}
 	c.Decides("BLANKS-AGREE: every in-line white-space character of the Newick lexer (isWhitespace minus the line terminators) is a blank for the multi-tree splitter's end-of-tree test, so that `;` followed by blanks ends a tree for the multi-tree reader exactly where the single-tree reader stops")
 	c.blanksAgree("BLANKS-AGREE", c.Func("io/fileutils", "", "ReadUntilSemiColon"), c.Func("io/newick", "", "isWhitespace"), "Every tree of a multi-tree file is delivered in file order ... none is silently skipped")
 	c.Floor("BLANKS-AGREE", 1)
